@@ -89,8 +89,8 @@ def gen_workspace(rnd: random.Random, root="/vw", max_depth=3, chain_only=False)
 
     # conftest per level
     for li, d in enumerate(dirs):
-        kind_choices = ["absent", "def", "override", "star", "explicit", "plugins", "none"]
-        weights = [2, 4, 2, 3, 2, 1, 1]
+        kind_choices = ["absent", "def", "override", "star", "explicit", "plugins", "none", "peer_conftest"]
+        weights = [2, 4, 2, 3, 2, 1, 1, 1]
         if rnd.random() < 0.15:
             continue  # no conftest at this level
         src = "import pytest\n"
@@ -132,6 +132,15 @@ def gen_workspace(rnd: random.Random, root="/vw", max_depth=3, chain_only=False)
             elif kind == "plugins":
                 mod = helper_module(d, [n])
                 src += 'pytest_plugins = ["%s"]\n' % mod
+            elif kind == "peer_conftest":
+                # the fixture lives in ANOTHER package's conftest.py (not an ancestor) and is
+                # re-exported here: references of that definition reach outside its own directory
+                helper_count[0] += 1
+                peer = "peer_%d" % helper_count[0]
+                files[d + "/" + peer + "/__init__.py"] = ""
+                files[d + "/" + peer + "/conftest.py"] = "import pytest\n\n" + fixture_src(rnd, n, doc="in the peer conftest") + "\n"
+                src += rnd.choice(["from .%s.conftest import %s\n" % (peer, n), "from .%s.conftest import *\n" % peer])
+                tags.append("import:peer-conftest")
         files[d + "/conftest.py"] = src + "\n" + body
 
     # an unimported module and a sibling directory that must never be visible
